@@ -75,8 +75,11 @@ def gen_schema(r, size=1.0):
             if f["kind"] not in ("scalar", "enum", "struct") and r.random() < 0.1 and f["kind"] not in ("union", "vec_union"):
                 f["required"] = True
             if r.random() < 0.08 and not f.get("required"): f["deprecated"] = True
+            # optional scalars / enums: `= null` instead of a default
+            if f["kind"] in ("scalar", "enum") and not f.get("deprecated") and r.random() < 0.12:
+                f.pop("default", None); f["optional"] = True
             # flatcc accepts several key fields per table; the one with the lowest id is the default (primary) key
-            if f["kind"] in ("scalar", "string", "enum") and not f.get("deprecated") and f.get("type") not in ("bool", "float", "double") and r.random() < 0.15:
+            if f["kind"] in ("scalar", "string", "enum") and not f.get("deprecated") and not f.get("optional") and f.get("type") not in ("bool", "float", "double") and r.random() < 0.15:
                 f["key"] = True
             t["fields"].append(f)
     # sorted vectors (scalar, string, tables with a key): what the generated recursive sorter walks
@@ -129,7 +132,7 @@ def render(S):
             attrs = [a for a in ("required", "deprecated", "key", "sorted") if f.get(a)]
             if "id" in f: attrs.append("id: %d" % f["id"])
             if f.get("nested"): attrs.append('nested_flatbuffer: "%s"' % f["nested"])
-            d = " = %s" % f["default"] if "default" in f else ""
+            d = " = null" if f.get("optional") else " = %s" % f["default"] if "default" in f else ""
             fs.append("%s:%s%s%s;" % (f["name"], ty, d, " (%s)" % ", ".join(attrs) if attrs else ""))
         out.append("table %s { %s }" % (t["name"], " ".join(fs)))
     if S.get("unions_last"): out += utext
